@@ -3,7 +3,7 @@
 //! emitted is read back positionally and as a map in both key orders.
 
 use crate::common::*;
-use crate::deleg::{run_twofloat, DeOutcome};
+use crate::deleg::{run_twofloat, DeOutcome, Delivery};
 use crate::prng::Rng;
 use crate::simformat::*;
 use crate::values::{self, hexword, ref_valid_bits};
@@ -122,7 +122,12 @@ pub fn execute(c: &SerCase) -> LegReport {
                         continue;
                     }
                     let entries: Vec<Entry> = entries.iter().map(|e| Entry { kind, ..e.clone() }).collect();
-                    match run_twofloat(&entries, mode, Hint::Exact, true, None) {
+                  for honour_fields in [false, true] {
+                    if honour_fields && (mode != Mode::Map || kind != KeyKind::Str) {
+                        continue;
+                    }
+                    let name = if honour_fields { "map presented by a format that honours the fields hint" } else { name };
+                    match run_twofloat(&entries, &Delivery { honour_fields, ..Delivery::clean(mode) }) {
                         Err(msg) => rep.violations.push(viol("PANIC", format!("deserialize ({name}) panicked: {msg}"))),
                         Ok(DeOutcome { result: Ok((h, l)), .. }) => {
                             if h != c.hi || l != c.lo {
@@ -140,7 +145,8 @@ pub fn execute(c: &SerCase) -> LegReport {
                                 rep.probes.hit(match name {
                                     "seq" => "rt_seq_ok",
                                     "map" => "rt_map_ok",
-                                    _ => "rt_map_reversed_ok",
+                                    "map-reversed" => "rt_map_reversed_ok",
+                                    _ => "rt_map_fields_hint_ok",
                                 });
                             }
                         }
@@ -149,6 +155,7 @@ pub fn execute(c: &SerCase) -> LegReport {
                             format!("round trip via {name}: own output rejected: {}", e.msg),
                         )),
                     }
+                  }
                 }
             }
         }
